@@ -251,6 +251,39 @@ func (v *Verifier) solveAll(x *Exec, obls []*Obligation, timeoutS int, stats *So
 		}(o)
 	}
 	wg.Wait()
+	// second chance: obligations left undecided are retried with a longer budget,
+	// a few at a time, so that a loaded machine does not turn into a false alarm
+	var retry []*Obligation
+	for _, o := range obls {
+		if o.Status == "unknown" && !o.ExpectSat && !strings.Contains(o.Output, "(error ") {
+			retry = append(retry, o)
+		}
+	}
+	if len(retry) > 0 && len(retry) <= 24 {
+		sem2 := make(chan struct{}, 4)
+		var wg2 sync.WaitGroup
+		for _, o := range retry {
+			if _, isDup := cache[o.Script]; isDup && cache[o.Script] != o {
+				continue
+			}
+			wg2.Add(1)
+			sem2 <- struct{}{}
+			go func(o *Obligation) {
+				defer wg2.Done()
+				defer func() { <-sem2 }()
+				r := solve(o.Script, timeoutS*4, true)
+				o.Solver, o.Time, o.Output = r.solver, o.Time+r.time, r.output
+				switch r.verdict {
+				case "unsat":
+					o.Status = "discharged"
+				case "sat":
+					o.Status = "failed"
+					o.Model = r.output
+				}
+			}(o)
+		}
+		wg2.Wait()
+	}
 	for _, o := range dup {
 		p := cache[o.Script]
 		o.Status, o.Solver, o.Time, o.Output, o.Model = p.Status, p.Solver, 0, p.Output, p.Model
